@@ -14,9 +14,9 @@ git apply $src/patch.diff || { echo "patch does not apply"; res=bad; }
 go build ./... || { echo "does not build"; res=bad; }
 go test -vet=off -count=1 ./... > /tmp/seedcheck-$name.suite.log 2>&1 || { echo "suite FAILS with patch"; tail -5 /tmp/seedcheck-$name.suite.log; res=bad; }
 cp $demo $sub/
-(cd $sub && go test $SEED_TEST_FLAGS -vet=off -count=1 -run "Seed|Demo" . > /tmp/seedcheck-$name.with.log 2>&1) && { echo "demo PASSES with patch (should fail)"; res=bad; }
+(cd $sub && go test ${SEED_TEST_FLAGS:-} -vet=off -count=1 -run "Seed|Demo" . > /tmp/seedcheck-$name.with.log 2>&1) && { echo "demo PASSES with patch (should fail)"; res=bad; }
 git apply -R $src/patch.diff
-(cd $sub && go test $SEED_TEST_FLAGS -vet=off -count=1 -run "Seed|Demo" . > /tmp/seedcheck-$name.without.log 2>&1) || { echo "demo FAILS without patch (should pass)"; tail -5 /tmp/seedcheck-$name.without.log; res=bad; }
+(cd $sub && go test ${SEED_TEST_FLAGS:-} -vet=off -count=1 -run "Seed|Demo" . > /tmp/seedcheck-$name.without.log 2>&1) || { echo "demo FAILS without patch (should pass)"; tail -5 /tmp/seedcheck-$name.without.log; res=bad; }
 cd /; git -C /repo worktree remove --force $wt
 echo "seedcheck $name: $res"
 if [ $res = ok ]; then
